@@ -190,10 +190,36 @@ def build_all(clean=False):
 # --------------------------------------------------------------------------
 # running cases
 
-def run_lines(binary_cmd, text, timeout=1800):
-    p = subprocess.run(binary_cmd, input=text, stdout=subprocess.PIPE, stderr=subprocess.PIPE, text=True,
-                       timeout=timeout, env=GOENV)
-    return p.returncode, p.stdout, p.stderr
+def run_lines(binary_cmd, text, timeout=3000, shards=16):
+    """Feed case lines to a line-oriented binary; large inputs are split over parallel processes."""
+    lines = text.splitlines()
+    if len(lines) < 2000 or shards <= 1:
+        p = subprocess.run(binary_cmd, input=text, stdout=subprocess.PIPE, stderr=subprocess.PIPE, text=True,
+                           timeout=timeout, env=GOENV)
+        return p.returncode, p.stdout, p.stderr
+    import tempfile
+    k = shards
+    procs = []
+    for j in range(k):
+        chunk = lines[j::k]
+        fin = tempfile.TemporaryFile(mode="w+")
+        fin.write("\n".join(chunk) + "\n")
+        fin.seek(0)
+        fout = tempfile.TemporaryFile(mode="w+")
+        ferr = tempfile.TemporaryFile(mode="w+")
+        procs.append((subprocess.Popen(binary_cmd, stdin=fin, stdout=fout, stderr=ferr, env=GOENV), fin, fout, ferr))
+    rc, outs, errs = 0, [], []
+    for p, fin, fout, ferr in procs:
+        try:
+            p.wait(timeout=timeout)
+        except subprocess.TimeoutExpired:
+            p.kill()
+            rc = rc or 124
+        rc = rc or p.returncode
+        fout.seek(0); ferr.seek(0)
+        outs.append(fout.read()); errs.append(ferr.read())
+        fin.close(); fout.close(); ferr.close()
+    return rc, "".join(outs), "".join(errs)
 
 
 def parse_results(out):
@@ -346,6 +372,227 @@ def check_c16(tier, seed, res):
                 "seeded random wraps/maps/option programs; non-trivial = case with at least one non-empty argument; "
                 "distinct = distinct case text") % (2 if tier == "quick" else 3)
     res.extra["constructors"] = "see sub-kinds ctor/ctlctor/muxreg"
+
+
+# --------------------------------------------------------------------------
+# codec properties: C01, C02, C14
+
+def run_driver(text):
+    rc, out, err = run_lines([DRIVER], text)
+    if rc != 0:
+        raise RuntimeError("driver failed: " + err[-1000:])
+    return out
+
+
+def run_vh(text):
+    rc, out, err = run_lines([VH, "run"], text)
+    if rc != 0:
+        raise RuntimeError("vh run failed: " + err[-1000:])
+    return out
+
+
+def stage_requests(cases_text, workdir, tag):
+    """typed `req` cases -> (wire, spec, model) via the driver, then the real decoder on the wire."""
+    os.makedirs(workdir, exist_ok=True)
+    open(os.path.join(workdir, tag + ".cases"), "w").write(cases_text)
+    mout = run_driver(cases_text)
+    open(os.path.join(workdir, tag + ".model"), "w").write(mout)
+    table = {}
+    dec = []
+    for l in mout.splitlines():
+        parts = l.split(" | ")
+        head = parts[0].split(" ")
+        if len(parts) != 3 or len(head) != 3:
+            table[head[1]] = dict(error=l)
+            continue
+        table[head[1]] = dict(wire=head[2], spec=parts[1], model=parts[2])
+        dec.append("decode %s %s" % (head[1], head[2]))
+    iout = run_vh("\n".join(dec) + "\n")
+    open(os.path.join(workdir, tag + ".impl"), "w").write(iout)
+    for (k, i), r in parse_results(iout).items():
+        table[i]["impl"] = r
+    return table
+
+
+def c01_key(case_line):
+    t = case_line.split(" ")
+    kind = t[2]
+    if kind == "search":
+        # an extensible-match filter with dnAttributes set: "... ext <rule> <type> <v> 1"
+        for j, tok in enumerate(t):
+            if tok == "ext" and j + 4 < len(t) and t[j + 4] == "1" and j > 9:
+                return "filter=extensibleMatch+dnAttributes"
+    return "decode:" + kind
+
+
+@check("C01")
+def check_c01(tier, seed, res):
+    n = 3000 if tier == "quick" else 120000
+    cases = gen_cases("c01", seed, n, tier)
+    cases += gen_cases("c01dn", seed, 40, tier).replace("req ", "req dn")
+    table = stage_requests(cases, wd("C01"), "main")
+    cm = {l.split(" ", 2)[1]: l for l in cases.splitlines() if l}
+    dist = {}
+    for i, line in cm.items():
+        res.evaluations += 1
+        e = table.get(i, {})
+        if "impl" not in e:
+            res.mismatch(line, str(e.get("impl")), str(e.get("error", e.get("model"))))
+            continue
+        kind = line.split(" ")[2]
+        dist[kind] = dist.get(kind, 0) + 1
+        if len(line) > 40:
+            res.nontrivial.add(hashlib.md5(line.split(" ", 2)[2].encode()).hexdigest())
+        if e["impl"] != e["spec"]:
+            res.violation(c01_key(line), line, e["impl"], e["spec"], "handler-visible request differs from what the client encoded")
+        elif e["impl"] != e["model"]:
+            res.mismatch(line, e["impl"], e["model"])
+        elif res.evaluations % 211 == 1:
+            res.sample(line[:300] + "  =>  " + e["impl"][:200])
+    # requests that must never be delivered: unsupported protocolOps, bind versions != 3
+    neg = gen_cases("c01neg", seed, 0, tier)
+    model, impl = differential(neg, wd("C01"), "neg")
+    for k, line in case_map(neg).items():
+        res.evaluations += 1
+        i = impl.get(k); m = model.get(k)
+        if i is None or m is None:
+            res.mismatch(line, str(i), str(m)); continue
+        res.nontrivial.add(hashlib.md5(line.encode()).hexdigest())
+        if i.startswith("OK"):
+            res.violation("delivered-unsupported", line, i, m, "unsupported operation or non-v3 bind delivered to a handler")
+        elif i != m and not (i == "PANIC"):
+            res.mismatch(line, i, m)
+    dist["unsupported-or-bad-version"] = len(case_map(neg))
+    res.extra["distribution"] = dist
+    res.rule = ("seeded typed requests of the 7 operations (size-biased strings incl. 127/128/255/256-byte, boundary integers, "
+                "filters to depth 3 over all 10 constructors, 0..6 controls of all kinds), encoded by the model's RFC 4511 client "
+                "encoder, decoded by the real (*conn).readRequest; plus every unsupported protocolOp tag 0..30 (prim+cons) and bind "
+                "versions != 3; non-trivial = request with at least one non-empty field beyond the id; distinct = distinct case text")
+
+
+@check("C02")
+def check_c02(tier, seed, res):
+    canon = gen_cases("c02canon", seed, 0, tier)
+    mout = run_driver(canon)
+    wires = []
+    for l in mout.splitlines():
+        parts = l.split(" | ")
+        head = parts[0].split(" ")
+        if len(parts) == 3 and len(head) == 3:
+            wires.append("w %s %s" % (head[1], head[2]))
+    rc, muts, err = run_lines([VH, "mutate", str(seed), tier], "\n".join(wires) + "\n")
+    if rc != 0:
+        raise RuntimeError("vh mutate failed: " + err[-1000:])
+    corpus = corpus_cases("C02")
+    allcases = corpus + muts
+    model, impl = differential(allcases, wd("C02"), "main")
+    oracle_skipped = 0
+    classes = {"OK": 0, "ERR": 0, "PANIC": 0}
+    for k, line in case_map(allcases).items():
+        res.evaluations += 1
+        i = impl.get(k); m = model.get(k)
+        if i is None or m is None or i.startswith("HARNESS") or m.startswith("DRIVER"):
+            res.mismatch(line, str(i), str(m)); continue
+        cls = i.split(" ")[0]
+        classes[cls] = classes.get(cls, 0) + 1
+        if cls != "ERR" or len(line) > 30:
+            res.nontrivial.add(line.split(" ", 2)[2])
+        if i == "PANIC":
+            res.violation("panic:decode", line, i, m, "request decoding panicked")
+            continue
+        if i != m:
+            hexs = line.split(" ")[2]
+            bs = set(hexs[j:j + 2] for j in range(0, len(hexs), 2))
+            if bs & {"09", "18"}:
+                oracle_skipped += 1
+            else:
+                res.mismatch(line, i, m)
+        elif res.evaluations % 3001 == 1:
+            res.sample(line[:200] + "  =>  " + i[:120])
+    # frame after frame on one connection
+    streams = gen_cases("c02stream", seed, 200 if tier == "quick" else 5000, tier)
+    model, impl = differential(streams, wd("C02"), "stream")
+    for k, line in case_map(streams).items():
+        res.evaluations += 1
+        i = impl.get(k); m = model.get(k)
+        if i is None or m is None:
+            res.mismatch(line, str(i), str(m)); continue
+        if "PANIC" in i:
+            res.violation("panic:decode", line, i, m, "request decoding panicked inside a stream")
+        elif i != m:
+            res.mismatch(line, i, m)
+    res.extra["outcome_classes"] = classes
+    res.extra["oracle_dependent_frames_compared_on_panic_bit_only"] = oracle_skipped
+    res.extra["canonical_requests"] = len(wires)
+    res.exhaustive = True
+    res.rule = ("every single-point mutation of %d canonical requests (each operation x each control kind): node replaced by 15 node kinds, "
+                "10 length-octet corruptions, class/tag/constructed-bit changes, child deleted/duplicated/swapped, child lists truncated/extended, "
+                "content emptied/over-long; double-point mutations exhaustive inside the controls subtree (thorough) or sampled; raw random "
+                "frames; all through the real readRequest under recover; single-point set is enumerated completely (exhaustive=true refers to it); "
+                "non-trivial = frame that is accepted or longer than a header; distinct = distinct frame bytes") % len(wires)
+
+
+def corpus_cases(pid):
+    out = []
+    d = os.path.join(ROOT, "corpus")
+    for fn in sorted(os.listdir(d)) if os.path.isdir(d) else []:
+        if fn.startswith(pid + "-") and fn.endswith(".json"):
+            try:
+                c = json.load(open(os.path.join(d, fn))).get("case")
+            except Exception:
+                c = None
+            if c:
+                parts = c.split(" ", 2)
+                out.append("%s corpus-%s %s" % (parts[0], fn[:-5].replace(" ", "_"), parts[2] if len(parts) > 2 else ""))
+    return "\n".join(out) + ("\n" if out else "")
+
+
+@check("C14")
+def check_c14(tier, seed, res):
+    n = 3000 if tier == "quick" else 200000
+    cases = gen_cases("c14", seed, n, tier)
+    model, impl = differential(cases, wd("C14"), "main")
+    dist = {}
+    for k, line in case_map(cases).items():
+        res.evaluations += 1
+        i = impl.get(k); m = model.get(k)
+        if i is None or m is None or i.startswith("HARNESS") or m.startswith("DRIVER"):
+            res.mismatch(line, str(i), str(m)); continue
+        t = line.split(" ")
+        res.nontrivial.add(line.split(" ", 2)[2])
+        if t[0] == "ctl":
+            dist[t[2]] = dist.get(t[2], 0) + 1
+            # model: "<enc> | OK <norm fields>"; impl: "<enc> | OK <decoded by real decodeControl>"
+            mp = m.split(" | "); ip = i.split(" | ")
+            if i == "PANIC" or len(ip) != 2:
+                res.violation("ctl:" + t[2], line, i, m, "control constructor/encode/decode failed"); continue
+            if ip[1] != mp[1]:
+                res.violation("ctl-roundtrip:" + t[2], line, i, m, "control fields changed by Encode -> decodeControl"); continue
+            if ip[0] != mp[0]:
+                res.mismatch(line, i, m)
+            elif res.evaluations % 301 == 1:
+                res.sample(line + "  =>  " + i[:200])
+        else:  # behera g e c
+            g, e, c = t[2], t[3], t[4]
+            dist["behera-ctor"] = dist.get("behera-ctor", 0) + 1
+            if i == "PANIC":
+                res.violation("behera-ctor-panic", line, i, m, "constructor panicked"); continue
+            if i.startswith("OK"):
+                f = i.split(" ")
+                fields = [int(f[2]), int(f[3]), int(f[4])]
+                nset = sum(1 for x in fields if x != -1)
+                if c != "~" and int(c) > 8:
+                    key = "behera-error-code-wraps" if int(c) >= 2 ** 63 else "behera-error>8-accepted"
+                    res.violation(key, line, i, m, "error code above 8 accepted"); continue
+                if nset > 1:
+                    res.violation("behera-more-than-one", line, i, m, "more than one of grace/expire/error set"); continue
+            if i != m:
+                res.mismatch(line, i, m)
+    res.extra["distribution"] = dist
+    res.rule = ("seeded typed controls of all 9 kinds (page sizes 0..2^32-1 boundaries, cookies of any length, int64 boundary expiry/grace, "
+                "errors 0..8, arbitrary OIDs/values/criticality) through the real constructors, Encode and decodeControl, compared byte-exact "
+                "with the model's encoding and with the typed fields; Behera constructor over the product of 12 boundary values per option; "
+                "distinct = distinct case text, all non-trivial")
 
 
 def entry_names(i):
